@@ -22,6 +22,11 @@ together with the state of the harness-owned random source.  Then
  (Z) configurations with limits: after the restore both original and copy run Solve() to the stop and must agree.
  (L) LoggingMonitor configurations: the original dies at k, one restored solver continues; the record lines of the
      log file must be those of the uninterrupted run (comment lines ignored).
+ (K) sticky Solve keywords: the reference is ONE uninterrupted Solve(**kw) under a generation limit N (DE/DE2: strategy,
+     CrossProbability, ScalingFactor; NM: radius, adaptive; Powell: xtol, imax, direc).  For every k < N: Solve(**kw) under
+     limit k, SaveSolver/LoadSolver or dill, SetEvaluationLimits(N), bare Solve() - or bare Step()s - must end in the
+     canonical state of the uninterrupted run (step-monitor record sequence included); likewise from every restart file
+     SetSaveFrequency(1) wrote during that uninterrupted Solve (captured from the callback = what a crash leaves behind).
  (H) histories: two configurations reconfigure the run between two Steps (SetPenalty + new evaluation / generation
      monitors; SetStrictRanges + SetEvaluationLimits(new=True)), so crash points also fall on a solver whose
      objective is not live and whose monitors were swapped; the same reconfiguration is applied to whichever
@@ -649,6 +654,213 @@ def run_double(b, k1, first, seconds, T, only_k2=None):
         lab.rng.setstate(st)
 
 
+# ------------------------------------------------------------------ (K) one uninterrupted Solve(**keywords) as the reference
+# keywords the docstrings of _process_inputs call 'sticky': they must travel with every checkpoint
+STICKY = {
+    'DE':  [{'strategy': 'Rand1Bin', 'CrossProbability': 0.5, 'ScalingFactor': 0.7}, {'strategy': 'Best1Exp'},
+            {'strategy': 'RandToBest1Exp', 'ScalingFactor': 0.5}, {'CrossProbability': 0.3}],
+    'NM':  [{'adaptive': True, 'radius': 0.2}, {'radius': 0.4}],
+    'Powell': [{'xtol': 1e-2, 'imax': 40}, {'direc': [[1.0, 1.0], [0.0, 1.0]], 'xtol': 1e-3}],
+}
+STICKY['DE2'] = STICKY['DE']
+K_TRANSFERS = ['SaveSolver/LoadSolver', 'dill.dumps/dill.loads']
+# different by construction between ONE Solve to N and Solve to k + restore + Solve to N: the limit arithmetic the
+# harness itself performs on the restored object, and the STOP("...") line of the intermediate stop at k
+K_MASK = ('_maxiter', '_maxfun')
+
+
+def _kw(setting):
+    import mystic.strategy as ms
+    kw = dict(setting)
+    if 'strategy' in kw:
+        kw['strategy'] = getattr(ms, kw['strategy'])
+    if 'direc' in kw:
+        kw['direc'] = np.array(kw['direc'], dtype=float)
+    return kw
+
+
+def _nostop(f):
+    """drop STOP("...") info lines from the two step-monitor renderings"""
+    f = dict(f)
+    def clean(t):
+        if isinstance(t, tuple):
+            if len(t) == 2 and t[0] == 's' and isinstance(t[1], str) and t[1].startswith('STOP('):
+                return None
+            out = tuple(c for c in (clean(x) for x in t) if c is not None or False)
+            return out
+        if isinstance(t, str) and t.startswith('STOP('):
+            return None
+        return t
+    for k in ('_stepmon', '#stepmon'):
+        if k in f:
+            f[k] = clean(f[k])
+    return f
+
+
+def _kdiff(fa, fb):
+    a, b = _nostop(fa), _nostop(fb)
+    return [x for x in cn.diff(a, b) if x not in K_MASK], a, b
+
+
+def run_sticky(cfg, N, setting, T, tmp, only=None):
+    """reference = ONE call Solve(**setting) under the generation limit N.  For every k < N:
+    (a) Solve(**setting) under limit k, checkpoint, restore, SetEvaluationLimits(N), bare Solve();
+    (b) the same continued with bare Step() calls;
+    (p) the restart file SetSaveFrequency(1) wrote during generation k of the uninterrupted Solve (captured from the
+        callback, i.e. the file a crash at that moment leaves behind), LoadSolver, bare Solve() / Step()s.
+    Each must end in the canonical state of the uninterrupted run at N (step-monitor record sequence included)."""
+    import dill
+    from mystic.solvers import LoadSolver
+    b = Bench.__new__(Bench)            # plumbing only (no Step-wise reference trajectory is needed here)
+    b.cfg = dict(cfg); b.labcfg = {k: v for k, v in cfg.items() if k not in ('conf', 'midrun')}
+    b.midrun = {}; b.n = N; b.tmp = tmp; b.serial = 0; b.cleanup = []
+    sink = Sink(T, b)
+    kw = _kw(setting)
+
+    def solve_to(limit, freq=None, callback=None, fn=None):
+        lab = b.lab()
+        s = lab.solver
+        s.SetEvaluationLimits(limit, None)
+        if freq:
+            s.SetSaveFrequency(freq, fn)
+        lab.kw = _kw(setting)       # kept: the control below passes the very same objects again
+        with lab._env():
+            if callback is not None:
+                s.Solve(callback=lambda x: callback(lab, s), **lab.kw)
+            else:
+                s.Solve(**lab.kw)
+        return lab, s
+
+    def resume(lab, R, how, st, raise_limit):
+        lab.rng.setstate(st)
+        with lab._env():
+            if raise_limit:
+                R.SetEvaluationLimits(N, None)
+            if how == 'Solve':
+                R.Solve()
+            else:
+                for i in range(N + 3):
+                    if R.Step():
+                        break
+        return cn.fields(R)
+
+    lab0, s0 = solve_to(N)
+    ref = cn.fields(s0)
+    T.state(cn.freeze(ref)); T.count('traces'); T.count('transitions', N + 1)
+    T.hist('sticky_reference_generations', int(s0.generations))
+    if int(s0.generations) != N:
+        raise HarnessFault('the uninterrupted Solve(%r) under the generation limit %d stopped at generation %d' % (setting, N, s0.generations))
+
+    def judge(tag, name, case, f, want, control=None):
+        d, a, w = _kdiff(f, want)
+        T.count('traces')
+        if d and control is not None and not _kdiff(f, control)[0]:
+            # the un-pickled original, continued with the keywords supplied AGAIN, ends in the very same state: the
+            # difference is made by stopping and continuing (Powell's Finalize logs the point before the next
+            # extrapolation), not by the checkpoint - outside this property
+            T.hist('sticky_difference_not_due_to_checkpoint', '%s: %s' % (b.cfg['solver'], ','.join(d)))
+            T.nontriv(('K', sorted(b.cfg.items(), key=str), repr(setting), repr(sorted(case.items()))))
+            sink.outcome('sticky', name, [])
+            return
+        if d:
+            sink.emit('sticky', name, 'resumed_Solve_differs_from_uninterrupted_Solve', _what(d),
+                      '%s: after resuming, the state at generation limit %d differs from ONE uninterrupted Solve(**%r) in %s: %s'
+                      % (tag, N, setting, d, '; '.join(cn.explain(a, w, x, 160) for x in d[:3])), dict(case, setting=setting))
+        else:
+            T.nontriv(('K', sorted(b.cfg.items(), key=str), repr(setting), repr(sorted(case.items()))))
+        sink.outcome('sticky', name, [('differs',)] if d else [])
+
+    # (a), (b): stop at k, checkpoint, restore, continue
+    for k in range(N):
+        if only is not None and only.get('k') != k:
+            continue
+        lab, O = solve_to(k)
+        T.count('transitions', k + 1)
+        st = lab.rng.getstate()
+        copies = []
+        shared = {}
+        for name in K_TRANSFERS:
+            for how in ('Solve', 'Steps'):
+                try:
+                    copies.append((name, how, b.transfer(lab, O, name, shared)))
+                except Exception as e:
+                    sink.emit('sticky', name, 'transfer_raised', type(e).__name__, 'checkpoint after Solve under limit %d raised %s: %s' % (k, type(e).__name__, e), {'k': k, 'setting': setting})
+        # control: the original itself (never pickled), limit raised, continued with the keywords passed again
+        control = None
+        try:
+            lab.rng.setstate(st)
+            with lab._env():
+                O.SetEvaluationLimits(N, None)
+                O.Solve(**lab.kw)
+            control = cn.fields(O)
+            T.count('transitions', N - k)
+        except Exception:
+            control = None
+        for name, how, R in copies:
+            save, restore = SPLIT[name]
+            case = {'k': k, 'variant': 'stop_at_k', 'transfer': name, 'continue': how}
+            try:
+                f = resume(lab, R, how, st, True)
+            except Exception as e:
+                sink.emit('sticky', (save, restore + '+' + how), 'continue_raised', type(e).__name__,
+                          'resuming from generation %d raised %s: %s' % (k, type(e).__name__, e), dict(case, setting=setting))
+                continue
+            T.count('transitions', N - k)
+            judge('Solve(**kw) to %d, %s, SetEvaluationLimits(%d), bare %s' % (k, name, N, how), (save, restore + '+' + how), case, f, ref, control)
+
+    # (p): the restart files one uninterrupted Solve leaves behind, generation by generation
+    if only is None or only.get('variant') == 'periodic_file':
+        fn = b.path('sticky')
+        snaps = []
+        def grab(lab, s):
+            if os.path.exists(fn):
+                with open(fn, 'rb') as fh:
+                    snaps.append((int(s.generations), fh.read(), lab.rng.getstate()))
+        lab1, s1 = solve_to(N, 1, grab, fn)
+        f1 = cn.fields(s1)
+        T.count('traces'); T.count('transitions', N + 1)
+        d = [x for x in cn.diff(f1, ref) if x != '_saveiter']
+        if d:
+            sink.emit('sticky', ('periodic', 'original'), 'dumping_perturbs_run', _what(d),
+                      'Solve(**%r) with SetSaveFrequency(1) ends differently from the run without, in %s' % (setting, d), {'variant': 'periodic_file', 'setting': setting})
+        T.hist('sticky_periodic_files_captured', len(snaps))
+        for g, data, st in snaps[:-1]:          # the last file is the finished run
+            if only is not None and only.get('k') not in (None, g):
+                continue
+            for how in ('Solve', 'Steps'):
+                case = {'k': g, 'variant': 'periodic_file', 'continue': how}
+                q = b.path('stickycrash')
+                with open(q, 'wb') as fh:
+                    fh.write(data)
+                lab2 = b.lab()
+                try:
+                    with lab2._env():
+                        R = LoadSolver(q)
+                    f = resume(lab2, R, how, st, False)
+                except Exception as e:
+                    sink.emit('sticky', ('periodic', 'LoadSolver+' + how), 'continue_raised', type(e).__name__,
+                              'resuming from the file of generation %d raised %s: %s' % (g, type(e).__name__, e), dict(case, setting=setting))
+                    continue
+                T.count('transitions', N - g)
+                judge('file written during generation %d of Solve(**kw) with SetSaveFrequency(1), LoadSolver, bare %s' % (g, how),
+                      ('periodic', 'LoadSolver+' + how), case, f, f1)
+
+
+def shard_sticky(item):
+    _, cfg, N, settings = item
+    T = Tally()
+    _trace('start sticky %s' % cfg['solver'])
+    tmp = tempfile.mkdtemp(prefix='c06k_')
+    try:
+        for setting in settings:
+            run_sticky(cfg, N, setting, T, tmp)
+        T.sample({'cfg': cfg, 'n': N, 'mode': 'sticky', 'setting': settings[0], 'k': N // 2, 'variant': 'stop_at_k'})
+    finally:
+        shutil.rmtree(tmp, ignore_errors=True)
+    _trace('end   sticky %s' % cfg['solver'])
+    return T
+
+
 # ------------------------------------------------------------------ shard / run / replay
 def _trace(text):
     path = os.environ.get('C06_TRACE')       # development aid: which shard a worker was in
@@ -705,6 +917,8 @@ def shard(item):
 
 
 def _shard(item):
+    if item[0] == 'sticky':
+        return shard_sticky(item)
     cfg, n, plan = item
     T = Tally()
     _trace('start %s/%s/%s/dim%d/seed%d' % (cfg['solver'], cfg['conf'], cfg['cost'], cfg['dim'], cfg['seed']))
@@ -769,6 +983,12 @@ def plan_of(ctx):
                             items.append((make_cfg(solver, conf, cost, dim, seed), n, plan if core else lean))
     heavy = {'Powell': 0, 'DE2': 1, 'DE': 2, 'NM': 3}
     items.sort(key=lambda it: heavy[it[0]['solver']])      # longest shards first (stable within a solver)
+    # (K) sticky Solve keywords: one shard per (solver, configuration)
+    for solver in solverlab.SOLVERS:
+        sets = STICKY[solver] if ctx.thorough else STICKY[solver][:2]
+        for conf, cost in ([('plain', 'rosen'), ('box_con_pen', 'sphere'), ('monitors', 'sphere')] if ctx.thorough else [('plain', 'rosen')]):
+            dim = 3 if solver == 'NM' else 2      # NM's adaptive coefficients coincide with the standard ones for dim 2
+            items.append(('sticky', make_cfg(solver, conf, cost, dim, ctx.seed), n, sets))
     return n, items
 
 
@@ -776,13 +996,20 @@ def run(ctx):
     n, items = plan_of(ctx)
     only = os.environ.get('C06_ONLY')      # development aid: 'Powell' or 'NM:plain'
     if only:
-        items = [it for it in items if all(p in (it[0]['solver'], it[0]['conf'], it[0]['cost']) for p in only.split(':'))]
+        def keep(it):
+            cfg = it[1] if it[0] == 'sticky' else it[0]
+            return all(p in (cfg['solver'], cfg['conf'], cfg['cost'], 'sticky' if it[0] == 'sticky' else 'main') for p in only.split(':'))
+        items = [it for it in items if keep(it)]
+    main = [it for it in items if it[0] != 'sticky']
+    sticky = [it for it in items if it[0] == 'sticky']
     ctx.bounds = {'run_length_n': n, 'crash_points': 'every boundary k in 0..n-1 (single), every pair k1<k2<n (double), every k in 1..n-1 (periodic file)',
-                  'solvers': list(solverlab.SOLVERS), 'configurations': sorted(set(it[0]['conf'] for it in items)),
-                  'costs': sorted(set(it[0]['cost'] for it in items)), 'dims': sorted(set(it[0]['dim'] for it in items)),
-                  'seeds': sorted(set(it[0]['seed'] for it in items)), 'configuration_shards': len(items),
+                  'solvers': list(solverlab.SOLVERS), 'configurations': sorted(set(it[0]['conf'] for it in main)),
+                  'costs': sorted(set(it[0]['cost'] for it in main)), 'dims': sorted(set(it[0]['dim'] for it in main)),
+                  'seeds': sorted(set(it[0]['seed'] for it in main)), 'configuration_shards': len(main),
                   'single_transfers': (SINGLE_THOROUGH if ctx.thorough else SINGLE) + ['copy.copy'], 'periodic(frequency -> restore paths)': PERIODIC_FULL if ctx.thorough else PERIODIC_QUICK,
                   'double_chains(first -> seconds)': DOUBLE_QUICK if not ctx.thorough else {'core configurations %s' % (THOROUGH_CORE,): DOUBLE, 'other configurations': DOUBLE_QUICK},
+                  'sticky_Solve_keywords(K)': {'generation_limit_N': n, 'crash_points': 'every k < N (stop at k) and every generation file of the uninterrupted run', 'transfers': K_TRANSFERS + ['periodic f=1 / LoadSolver'], 'continue_with': ['bare Solve()', 'bare Step()s'],
+                                               'settings': {sv: [it[3] for it in sticky if it[1]['solver'] == sv][:1] for sv in solverlab.SOLVERS}, 'configurations': sorted(set((it[1]['conf'], it[1]['cost']) for it in sticky))},
                   'solve_continuation': 'configurations with limits: Solve() on original and restored from every k'}
     ctx.rule = ("a case = one (configuration, crash point(s), save path, restore path) resumed run; `states` = distinct canonical forms of "
                 "reference boundaries and restored objects; a case is non-trivial when the restored object executed at least one real "
@@ -804,6 +1031,9 @@ def replay(case):
     tmp = tempfile.mkdtemp(prefix='c06r_')
     b = None
     try:
+        if case['mode'] == 'sticky':
+            run_sticky(case['cfg'], case['n'], case['setting'], T, tmp, only={'k': case.get('k'), 'variant': case.get('variant')})
+            return [v['detail'] for v in T.violations.values()]
         b = Bench(case['cfg'], case['n'], tmp)
         mode = case['mode']
         if mode == 'single':
